@@ -128,6 +128,16 @@ def run_shard(spec, acc):
                                 run_case(acc, {"v1": v1, "shape": shape.name, "k": k,
                                                "kind": kind, "fu": fu.name, "j": j,
                                                "variant": var}, roles)
+                                # the same over the TCP transports (TCPSigner, SGX) - the
+                                # commands these have, transient failures
+                                if j == 0 and (var in ("plain", "vbetween") or
+                                               var.startswith("quiet:")) and \
+                                        "eartbeat" not in shape.name + fu.name and \
+                                        rng.random() < (0.5 if thorough else 0.25):
+                                    run_case(acc, {"v1": v1, "shape": shape.name, "k": k,
+                                                   "kind": kind, "fu": fu.name, "j": j,
+                                                   "variant": var,
+                                                   "plat": rng.choice(["tcp", "sgx"])}, roles)
 
 
 _base_cache = {}
@@ -220,12 +230,19 @@ def run_case_(acc, c, roles=None):
         d["role"] = role
         acc.violation(mech, d, c)
 
-    dev = fl.make_device(shape, also=[fu])
+    plat = c.get("plat", "ledger")
+    dev = fl.make_device(shape, also=[fu], platform=plat)
+    if plat == "sgx":
+        dev.unlocked = True
+    if plat != "ledger":
+        acc.count("cases_on_the_tcp_platforms")
     # a third of the cases with the manager's low-level I/O debugging option on
     iodebug = (zlib.crc32(repr(sorted(c.items())).encode()) % 3 == 0)
     if iodebug:
         acc.count("cases_with_iodebug_on")
     with Stack(dev, version_one=v1, iodebug=iodebug) as s:
+        # (over TCP the link failures come in the shapes the dongle layer classifies)
+        s.bus.tcp_faults_as_hid = True
         s.initialize()
         if c["variant"] == "after-timeout":
             # the request before the faulted one ended in a time-out (no answer at all from
@@ -428,7 +445,7 @@ def run_case_(acc, c, roles=None):
             if "close" not in names or seq[names.index("close")][1] != old_handle:
                 return bad("followup-did-not-close-old-connection:%s" % fu.command,
                            events=seq[:8])
-        if "enumerate" not in names or "open" not in names:
+        if ("enumerate" not in names and plat == "ledger") or "open" not in names:
             return bad("followup-did-not-reopen:%s" % fu.command, events=seq[:8])
         i_open = names.index("open")
         if "close" in names and names.index("close") > i_open:
@@ -437,7 +454,8 @@ def run_case_(acc, c, roles=None):
         apd = [x for x in seq if x[0] == "apdu"]
         if any(h != new_handle for (_, h, _) in apd[:4]):
             return bad("bring-up-on-old-connection:%s" % fu.command, events=seq[:10])
-        if names.index("enumerate") > names.index("apdu") if "apdu" in names else False:
+        first_ = "enumerate" if plat == "ledger" else "open"
+        if names.index(first_) > names.index("apdu") if "apdu" in names else False:
             return bad("apdu-before-reconnect:%s" % fu.command, events=seq[:8])
         got_roles = [r for (_, _, r) in apd]
         if plan:
